@@ -150,6 +150,10 @@ def binop(it, op, a, b, node):
         return tensor_binop(it, op, a, b, node)
     if is_number(a) and is_number(b):
         ta, tb = num_term(a), num_term(b)
+        if op in ("Div", "FloorDiv", "Mod") and tb is not None:
+            if not hasattr(it, "divisions"):
+                it.divisions = []
+            it.divisions.append((it.site(node), tb, list(it.conds), b))
         t = term_binop(op, ta, tb)
         ka = a.kind if isinstance(a, VNum) else a.kind
         kb = b.kind if isinstance(b, VNum) else b.kind
